@@ -10,6 +10,8 @@
 //   solve <tag> <L|R> <r|c> <v|r|c> <s|i> n m A[n*n] B      tag: spd semi lu tl tu tul tuu cg eig
 //        (s = solve(A,B,tag,side); i = inv(A,tag) % B resp. B % inv(A,tag))
 //   cholup <r|c> n alpha beta A[n*n] v[n]
+//   cholseq <r|c> n k A[n*n] (alpha beta v[n])*k <L|R|N> [b[n]]     k updates on one decomposition object, then solve
+//   decomp <chol|chold|lu|semi|eig> <r|c> n q A[n*n] (<L|R> <v|r|c> m B)*q   one decomposition object, q solves
 //   syev  <r|c> n A[n*n]
 // numbers are `p` or `p/q` (exact dyadic rationals), matrices are listed row by row.
 // Output: `ok ix=<FE_INEXACT raised during the call> <int fields> v= <m e>*`
@@ -92,6 +94,7 @@ static ld residual(Dense const& A, Dense const& X, Dense const& B){
 		ld s = -(ld)B(i, j);
 		for(std::size_t k = 0; k != A.c; ++k) s += (ld)A(i, k) * (ld)X(k, j);
 		s = std::fabs(s);
+		if(s != s) return s;            // NaN is sticky
 		if(!(s <= m)) m = s;
 	}
 	return m;
@@ -106,7 +109,12 @@ static Dense matmul(Dense const& A, Dense const& B){
 }
 static const ld RTOL = 1e-9L;
 // backward-error form of "residual at rounding level": |A X - B| <= RTOL (|A| |X| + |B|)
+static bool allFinite(Dense const& a){
+	for(std::size_t k = 0; k != a.a.size(); ++k) if(!std::isfinite(a.a[k])) return false;
+	return true;
+}
 static bool residualOk(Dense const& A, Dense const& X, Dense const& B, ld extra = 1){
+	if(!allFinite(X)) return false;     // a NaN anywhere in the result fails (the running maxima below would lose it)
 	ld res = residual(A, X, B);
 	ld bound = RTOL * extra * (normInf(A) * maxAbs(X) + maxAbs(B));
 	return res <= bound;
@@ -256,7 +264,7 @@ std::string runPstrf(Dense const& A){
 	ld err = 0; for(std::size_t k = 0; k != PA.a.size(); ++k){ ld e = std::fabs((ld)PA.a[k] - (ld)FFt.a[k]); if(!(e <= err)) err = e; }
 	ld scale = maxAbs(A);
 	// discarded remainder is below n^2 eps max_diag; allow 1e-9 relative on top
-	if(!(err <= (RTOL + (ld)A.r * A.r * 2.3e-16L) * (ld)A.r * scale)) out += " !oracle pstrf-PAPt";
+	if(!(err <= (RTOL + (ld)A.r * A.r * 2.3e-16L) * (ld)A.r * scale) || !allFinite(R)) out += " !oracle pstrf-PAPt";
 	for(std::size_t i = 0; i != R.r; ++i) for(std::size_t j = 0; j != R.c; ++j){
 		bool strictOther = Tri::is_upper ? (j < i) : (j > i);
 		bool beyondRank = Tri::is_upper ? (i >= rank) : (j >= rank);
@@ -292,17 +300,54 @@ static std::string opGetrf(Args& a){
 }
 
 // ------------------------------------------------------------- solve / inv front end
-// RHS kinds: 'v' vector, 'r'/'c' matrix of that orientation. form: 's' solve(), 'i' inv() product
+// RHS kinds: 'v' vector, 'r'/'c' matrix of that orientation.
+// form (how the solve expression is written and consumed; every form must yield the same X):
+//   's' x = solve(A,B,tag,side)                 'i' x = inv(A,tag) % B   resp.  B % inv(A,tag)
+//   'a' x = 1; noalias(x) += solve(...); x -= 1  'b' the same with the inv-product            (plus_assign_to path)
+//   'e' operands are expressions: solve(trans(At), trans(Bt) | subrange(b'), tag, side)
+//   matrix right-hand sides only (the expression is consumed lazily, never evaluated as a whole):
+//   'r' row(solve(...),i) for every i           'j' row(inv-product,i) for every i           (matrix_row_optimizer)
+//   'p' solve(...) % e_k for every column k     'q' inv-product % e_k                        (matrix_vector_prod_optimizer)
+//   'm' x = solve(...) % I                      'n' x = inv-product % I                      (product with a dense identity)
+//   every right-hand side kind, explicit inverse evaluated as a matrix (matrix_inverse::assign_to / plus_assign_to):
+//   'x' Ainv = inv(A,tag); x = Ainv % B  resp.  B % Ainv      'y' Ainv = 1; noalias(Ainv) += inv(A,tag); Ainv -= 1; same product
+//   only with -DC02_TRANS_FORMS=1|2 (the transpose rewrite of a solve expression does not compile in the pinned tree;
+//   checks/c02.py probes this per tree and switches the forms on as soon as it does; 1: it instantiates for operands
+//   of the same type only -- the right-hand side is copied to A's orientation first; 2: for any operands):
+//   't' Xt = trans(solve(...)); x = trans(Xt)     'c' column(solve(...),k) for every k     'l' e_i % solve(...) for every i
+static bool formKnown(char form, bool vec){
+#ifdef C02_TRANS_FORMS
+	if(!vec && (form == 't' || form == 'c' || form == 'l')) return true;
+#endif
+	if(form == 's' || form == 'i' || form == 'a' || form == 'b' || form == 'e' || form == 'x' || form == 'y') return true;
+	if(vec) return false;
+	return form == 'r' || form == 'j' || form == 'p' || form == 'q' || form == 'm' || form == 'n';
+}
 template<class Tag, class Side, class OA>
 Dense frontVec(Dense const& A, Dense const& b, Tag tag, char form, int& ix){
 	matrix<double, OA> a; toRemora(A, a);
 	vector<double> rhs(b.a.size()); for(std::size_t i = 0; i != b.a.size(); ++i) rhs(i) = b.a[i];
 	vector<double> x;
+	// operands of form 'e' (prepared outside the measured region)
+	matrix<double, OA> at = trans(a);
+	vector<double> big(rhs.size() + 3, 7.0); for(std::size_t i = 0; i != rhs.size(); ++i) big(i + 2) = rhs(i);
+	// the += forms start from x = (1,...,1) (subtracted again afterwards; exact whenever the sum was exact)
+	if(form == 'a' || form == 'b') x = vector<double>(rhs.size(), 1.0);
 	Flag fl;
 	if(form == 's') x = solve(a, rhs, tag, Side());
-	else if(Side::is_left) x = inv(a, tag) % rhs;
-	else x = rhs % inv(a, tag);
+	else if(form == 'i'){ if(Side::is_left) x = inv(a, tag) % rhs; else x = rhs % inv(a, tag); }
+	else if(form == 'a') noalias(x) += solve(a, rhs, tag, Side());
+	else if(form == 'b'){ if(Side::is_left) noalias(x) += inv(a, tag) % rhs; else noalias(x) += rhs % inv(a, tag); }
+	else if(form == 'e') x = solve(trans(at), subrange(big, 2, 2 + rhs.size()), tag, Side());
+	else if(form == 'x' || form == 'y'){
+		matrix<double> ainv(a.size1(), a.size2(), form == 'y' ? 1.0 : 0.0);
+		if(form == 'x') ainv = inv(a, tag);
+		else{ noalias(ainv) += inv(a, tag); for(std::size_t i = 0; i != ainv.size1(); ++i) for(std::size_t j = 0; j != ainv.size2(); ++j) ainv(i, j) -= 1.0; }
+		if(Side::is_left) x = ainv % rhs; else x = rhs % ainv;
+	}
+	else throw std::runtime_error("bad-form");
 	ix = fl.read();
+	if(form == 'a' || form == 'b') for(std::size_t i = 0; i != x.size(); ++i) x(i) -= 1.0;
 	Dense X(x.size(), 1); for(std::size_t i = 0; i != x.size(); ++i) X(i, 0) = x(i);
 	return X;
 }
@@ -310,12 +355,64 @@ template<class Tag, class Side, class OA, class OB>
 Dense frontMat(Dense const& A, Dense const& B, Tag tag, char form, int& ix){
 	matrix<double, OA> a; toRemora(A, a);
 	matrix<double, OB> rhs; toRemora(B, rhs);
-	matrix<double, OB> x;
+	std::size_t R = rhs.size1(), C = rhs.size2();
+	matrix<double, OB> x(R, C, (form == 'a' || form == 'b') ? 1.0 : 0.0);
+	matrix<double, OA> at = trans(a);
+	matrix<double, OB> bt = trans(rhs);
+	matrix<double> I(C, C, 0.0); for(std::size_t k = 0; k != C; ++k) I(k, k) = 1.0;
+#if defined(C02_TRANS_FORMS) && C02_TRANS_FORMS >= 2
+	matrix<double, OB> const& rhsT = rhs;       // operands of different orientation instantiate too
+#else
+	matrix<double, OA> rhsT = rhs;              // level 1: the transpose rewrite only instantiates for operands of one type
+#endif
 	Flag fl;
 	if(form == 's') x = solve(a, rhs, tag, Side());
-	else if(Side::is_left) x = inv(a, tag) % rhs;
-	else x = rhs % inv(a, tag);
+	else if(form == 'i'){ if(Side::is_left) x = inv(a, tag) % rhs; else x = rhs % inv(a, tag); }
+	else if(form == 'a') noalias(x) += solve(a, rhs, tag, Side());
+	else if(form == 'b'){ if(Side::is_left) noalias(x) += inv(a, tag) % rhs; else noalias(x) += rhs % inv(a, tag); }
+	else if(form == 'e') x = solve(trans(at), trans(bt), tag, Side());
+	else if(form == 'x' || form == 'y'){
+		matrix<double> ainv(a.size1(), a.size2(), form == 'y' ? 1.0 : 0.0);
+		if(form == 'x') ainv = inv(a, tag);
+		else{ noalias(ainv) += inv(a, tag); for(std::size_t i = 0; i != ainv.size1(); ++i) for(std::size_t j = 0; j != ainv.size2(); ++j) ainv(i, j) -= 1.0; }
+		if(Side::is_left) x = ainv % rhs; else x = rhs % ainv;
+	}
+	else if(form == 'r'){ for(std::size_t i = 0; i != R; ++i) noalias(row(x, i)) = row(solve(a, rhs, tag, Side()), i); }
+	else if(form == 'j'){
+		for(std::size_t i = 0; i != R; ++i){
+			if(Side::is_left) noalias(row(x, i)) = row(inv(a, tag) % rhs, i);
+			else noalias(row(x, i)) = row(rhs % inv(a, tag), i);
+		}
+	}
+	else if(form == 'p' || form == 'q'){
+		for(std::size_t k = 0; k != C; ++k){
+			vector<double> e(C, 0.0); e(k) = 1.0;
+			vector<double> col;
+			if(form == 'p') col = solve(a, rhs, tag, Side()) % e;
+			else if(Side::is_left) col = (inv(a, tag) % rhs) % e;
+			else col = (rhs % inv(a, tag)) % e;
+			noalias(column(x, k)) = col;
+		}
+	}
+#ifdef C02_TRANS_FORMS
+	else if(form == 't'){ matrix<double, OB> xt = trans(solve(a, rhsT, tag, Side())); x = trans(xt); }
+	else if(form == 'c'){
+		auto const e = solve(a, rhsT, tag, Side());
+		for(std::size_t k = 0; k != C; ++k){ vector<double> col = column(e, k); noalias(column(x, k)) = col; }
+	}
+	else if(form == 'l'){
+		for(std::size_t i = 0; i != R; ++i){
+			vector<double> e(R, 0.0); e(i) = 1.0;
+			vector<double> r = e % solve(a, rhsT, tag, Side());
+			noalias(row(x, i)) = r;
+		}
+	}
+#endif
+	else if(form == 'm') x = solve(a, rhs, tag, Side()) % I;
+	else if(form == 'n'){ if(Side::is_left) x = (inv(a, tag) % rhs) % I; else x = (rhs % inv(a, tag)) % I; }
+	else throw std::runtime_error("bad-form");
 	ix = fl.read();
+	if(form == 'a' || form == 'b') for(std::size_t i = 0; i != R; ++i) for(std::size_t j = 0; j != C; ++j) x(i, j) -= 1.0;
 	return fromRemora(x);
 }
 template<class Tag, class Side, class OA>
@@ -333,6 +430,7 @@ static std::string opSolve(Args& a){
 	std::string tag = a.word();
 	char S = a.ch(), O = a.ch(), K = a.ch(), form = a.ch();
 	std::size_t n = a.nat(), m = a.nat();
+	if(!formKnown(form, K == 'v')) throw std::runtime_error("bad-form");
 	Dense A(n, n, a.nums(n * n));
 	Dense B;
 	if(K == 'v'){ B = Dense(n, 1, a.nums(n)); m = 1; }
@@ -368,28 +466,220 @@ static std::string opSolve(Args& a){
 	return out;
 }
 
+// ---------------------------------------------------------------- rank-one updates of a Cholesky factor
+// own unblocked Cholesky of a symmetric long-double matrix: returns false if a pivot is <= 0;
+// minRatio = smallest pivot / diagonal entry (how close to singular the matrix is)
+static bool refChol(std::vector<ld> const& T, std::size_t n, ld& minRatio){
+	std::vector<ld> L(n * n, 0); minRatio = 1;
+	for(std::size_t j = 0; j != n; ++j){
+		for(std::size_t i = j; i != n; ++i){
+			ld s = T[i * n + j];
+			for(std::size_t k = 0; k != j; ++k) s -= L[i * n + k] * L[j * n + k];
+			if(i == j){
+				ld ratio = T[j * n + j] > 0 ? s / T[j * n + j] : -1;
+				if(ratio < minRatio) minRatio = ratio;
+				if(!(s > 0)) return false;
+				L[j * n + j] = std::sqrt(s);
+			}else L[i * n + j] = s / L[j * n + j];
+		}
+	}
+	return true;
+}
+struct Upd{ double alpha, beta; Dense v; };
+// cholesky_decomposition(A); k times update(alpha_t, beta_t, v_t) on the same object; then optionally
+// solve(b, side) through the updated decomposition.  Oracle (independent, long double): the target
+// T_t = alpha_t T_{t-1} + beta_t v_t v_t^T (T_0 = A from the stored lower triangle) is accumulated
+// without looking at the factor; after every update L L^T must equal T_t; an exception is right iff
+// T_t is not positive definite (undecided when T_t is within 1e-6 of singular); the final solve
+// must satisfy T_k x = b.
 template<class OA>
-std::string runCholup(Dense const& A, double alpha, double beta, Dense const& v){
+std::string runCholseq(Dense const& A, std::vector<Upd> const& ups, char S, Dense const& b){
+	std::size_t n = A.r;
 	matrix<double, OA> a; toRemora(A, a);
 	cholesky_decomposition<matrix<double, OA> > chol(a);
-	vector<double> vv(v.r); for(std::size_t i = 0; i != v.r; ++i) vv(i) = v(i, 0);
-	Flag fl;
-	chol.update(alpha, beta, vv);
-	int ix = fl.read();
+	std::vector<ld> T(n * n);
+	for(std::size_t i = 0; i != n; ++i) for(std::size_t j = 0; j != n; ++j) T[i * n + j] = j <= i ? A(i, j) : A(j, i);
+	int ix = 0; std::string bad;
+	bool decided = true;   // false once a target came close to singular: later verdicts would not be sound
+	for(std::size_t t = 0; t != ups.size(); ++t){
+		Upd const& u = ups[t];
+		for(std::size_t i = 0; i != n; ++i) for(std::size_t j = 0; j != n; ++j)
+			T[i * n + j] = (ld)u.alpha * T[i * n + j] + (ld)u.beta * (ld)u.v(i, 0) * (ld)u.v(j, 0);
+		ld minRatio; bool pd = refChol(T, n, minRatio);
+		if(!(minRatio > 1e-6L) && !(minRatio < -1e-6L)) decided = false;
+		if(pd && !(minRatio > 1e-6L)) decided = false;
+		vector<double> vv(n); for(std::size_t i = 0; i != n; ++i) vv(i) = u.v(i, 0);
+		bool threw = false;
+		{
+			Flag fl;
+			try{ chol.update(u.alpha, u.beta, vv); }catch(std::invalid_argument const&){ threw = true; }
+			ix |= fl.read();
+		}
+		if(threw){
+			std::ostringstream os; os << "exc invalid_argument at=" << t;
+			if(decided && pd) os << " !oracle cholupdate-spurious-exception";
+			return os.str();
+		}
+		if(decided && !pd && bad.empty()) bad = " !oracle cholupdate-missed-indefinite";
+		if(decided && pd && bad.empty()){
+			Dense L = lowerOf(fromRemora(chol.lower_factor()));
+			Dense TT(n, n); for(std::size_t k = 0; k != n * n; ++k) TT.a[k] = (double)T[k];
+			bool finite = true; for(std::size_t k = 0; k != L.a.size(); ++k) if(!std::isfinite(L.a[k])) finite = false;
+			if(!finite || !residualOk(L, transpose(L), TT, 10 * (ld)(t + 1))){
+				std::ostringstream os; os << " !oracle cholupdate-LLt step=" << t; bad = os.str();
+			}
+		}
+	}
 	Dense L = lowerOf(fromRemora(chol.lower_factor()));
-	std::string out = "ok" + ixs(ix) + showVals(L);
-	// oracle: L L^T = alpha A + beta v v^T
-	Dense T(A.r, A.c);
-	for(std::size_t i = 0; i != A.r; ++i) for(std::size_t j = 0; j != A.c; ++j)
-		T(i, j) = (double)((ld)alpha * (ld)(j <= i ? A(i, j) : A(j, i)) + (ld)beta * (ld)v(i, 0) * (ld)v(j, 0));
-	if(!residualOk(L, transpose(L), T, 10)) out += " !oracle cholupdate-LLt";
-	return out;
+	std::string vals = showVals(L);
+	if(S != 'N'){
+		vector<double> x(n); for(std::size_t i = 0; i != n; ++i) x(i) = b(i, 0);
+		{
+			Flag fl;
+			if(S == 'L') chol.solve(x, left()); else chol.solve(x, right());
+			ix |= fl.read();
+		}
+		Dense X(n, 1); for(std::size_t i = 0; i != n; ++i) X(i, 0) = x(i);
+		vals += showVals(X).substr(3);
+		if(decided && bad.empty()){
+			Dense TT(n, n); for(std::size_t k = 0; k != n * n; ++k) TT.a[k] = (double)T[k];
+			if(!residualOk(TT, X, b, 1e3)) bad = " !oracle cholupdate-solve-residual";
+		}
+	}
+	return "ok" + ixs(ix) + vals + bad;
 }
+// cholseq <r|c> n k A[n*n] (alpha beta v[n])*k <L|R|N> [b[n]]
+static std::string opCholseq(Args& a){
+	char O = a.ch(); std::size_t n = a.nat(), k = a.nat();
+	Dense A(n, n, a.nums(n * n));
+	std::vector<Upd> ups(k);
+	for(std::size_t t = 0; t != k; ++t){ ups[t].alpha = a.num(); ups[t].beta = a.num(); ups[t].v = Dense(n, 1, a.nums(n)); }
+	char S = a.ch();
+	if(S != 'L' && S != 'R' && S != 'N') throw std::runtime_error("bad-side");
+	Dense b(n, 1); if(S != 'N') b = Dense(n, 1, a.nums(n));
+	OR_DISPATCH(O, OA, return (runCholseq<OA>(A, ups, S, b)); )
+}
+// cholup <r|c> n alpha beta A[n*n] v[n]   (one update, no solve; kept for old replay files)
 static std::string opCholup(Args& a){
 	char O = a.ch(); std::size_t n = a.nat();
-	double alpha = a.num(), beta = a.num();
-	Dense A(n, n, a.nums(n * n)), v(n, 1, a.nums(n));
-	OR_DISPATCH(O, OA, return (runCholup<OA>(A, alpha, beta, v)); )
+	std::vector<Upd> ups(1);
+	ups[0].alpha = a.num(); ups[0].beta = a.num();
+	Dense A(n, n, a.nums(n * n)); ups[0].v = Dense(n, 1, a.nums(n));
+	Dense b(n, 1);
+	OR_DISPATCH(O, OA, return (runCholseq<OA>(A, ups, 'N', b)); )
+}
+
+// ---------------------------------------------------------------- decomposition objects used directly, reused
+// decomp <chol|chold|lu|semi|eig> <r|c> n q A[n*n] (<L|R> <v|r|c> m B)*q
+// One decomposition object is constructed from A and then serves q solve requests in sequence
+// (vector / matrix right-hand sides, left / right) -- the object must not be changed by a solve.
+// `chold`: default-constructed cholesky_decomposition, decompose() of an unrelated (n+1)x(n+1) matrix first,
+// then decompose(A) (re-use of the object).  Oracle: residual of every request against A (semi: normal equations).
+struct Req{ char S, K; std::size_t m; Dense B; };
+template<class Dec>
+std::string serveRequests(Dec const& dec, Dense const& A, std::vector<Req> const& reqs, bool lsq, ld extra, int& ix){
+	std::string vals = " v=", bad;
+	for(std::size_t t = 0; t != reqs.size(); ++t){
+		Req const& r = reqs[t];
+		Dense X;
+		if(r.K == 'v'){
+			vector<double> x(r.B.r); for(std::size_t i = 0; i != r.B.r; ++i) x(i) = r.B(i, 0);
+			Flag fl;
+			if(r.S == 'L') dec.solve(x, left()); else dec.solve(x, right());
+			ix |= fl.read();
+			X = Dense(x.size(), 1); for(std::size_t i = 0; i != x.size(); ++i) X(i, 0) = x(i);
+		}else if(r.K == 'r'){
+			matrix<double, row_major> x; toRemora(r.B, x);
+			Flag fl;
+			if(r.S == 'L') dec.solve(x, left()); else dec.solve(x, right());
+			ix |= fl.read();
+			X = fromRemora(x);
+		}else{
+			matrix<double, column_major> x; toRemora(r.B, x);
+			Flag fl;
+			if(r.S == 'L') dec.solve(x, left()); else dec.solve(x, right());
+			ix |= fl.read();
+			X = fromRemora(x);
+		}
+		vals += showVals(X).substr(3);
+		Dense M = A, XX = X, BB = r.B;
+		if(r.S == 'R'){ M = transpose(A); if(r.K != 'v'){ XX = transpose(X); BB = transpose(r.B); } }
+		if(!bad.empty()) continue;
+		std::ostringstream tg;
+		if(!lsq){
+			if(!residualOk(M, XX, BB, extra)) tg << " !oracle decomp-residual request=" << t;
+		}else{
+			Dense R = matmul(M, XX);
+			for(std::size_t k = 0; k != R.a.size(); ++k) R.a[k] -= BB.a[k];
+			Dense Z(R.r, R.c);
+			ld res = residual(transpose(M), R, Z);
+			ld bound = 1e-7L * (normInf(M) * (normInf(M) * maxAbs(XX) + maxAbs(BB)));
+			if(!(res <= bound) || !allFinite(XX)) tg << " !oracle decomp-normal-equations request=" << t;
+		}
+		bad = tg.str();
+	}
+	return vals + bad;
+}
+template<class OA>
+std::string runDecomp(std::string const& cls, Dense const& A, std::vector<Req> const& reqs){
+	typedef matrix<double, OA> Mat;
+	Mat a; toRemora(A, a);
+	std::size_t n = A.r;
+	// symmetric classes read one triangle only: the oracle uses the symmetrised lower triangle
+	Dense Asym(n, n); for(std::size_t i = 0; i != n; ++i) for(std::size_t j = 0; j != n; ++j) Asym(i, j) = j <= i ? A(i, j) : A(j, i);
+	int ix = 0; std::string rest;
+	if(cls == "chol"){
+		Flag fl; cholesky_decomposition<Mat> dec(a); ix |= fl.read();
+		rest = serveRequests(dec, Asym, reqs, false, 1, ix);
+	}else if(cls == "chold"){
+		Mat g(n + 1, n + 1, 0.0); for(std::size_t i = 0; i != n + 1; ++i){ g(i, i) = 4.0 + i; if(i) g(i, i - 1) = g(i - 1, i) = 1.0; }
+		cholesky_decomposition<Mat> dec;
+		dec.decompose(g);
+		Flag fl; dec.decompose(a); ix |= fl.read();
+		rest = serveRequests(dec, Asym, reqs, false, 1, ix);
+	}else if(cls == "lu"){
+		Flag fl; pivoting_lu_decomposition<Mat> dec(a); ix |= fl.read();
+		rest = serveRequests(dec, A, reqs, false, 1, ix);
+	}else if(cls == "semi"){
+		Flag fl; symm_pos_semi_definite_solver<Mat> dec(a); ix |= fl.read();
+		rest = serveRequests(dec, A, reqs, true, 1, ix);
+		// compute_inverse_factor: C (rank x n) with A^+ = C^T C.  Oracle: Moore-Penrose identity A A^+ A = A.
+		std::size_t rank = dec.rank();
+		Mat c(rank, n, 0.0);
+		{ Flag f2; dec.compute_inverse_factor(c); ix |= f2.read(); }
+		Dense C = fromRemora(c);
+		std::string bad; std::size_t pos = rest.find(" !oracle");
+		if(pos != std::string::npos){ bad = rest.substr(pos); rest = rest.substr(0, pos); }
+		if(rank) rest += showVals(C).substr(3);
+		std::ostringstream rk; rk << " rank=" << rank;
+		if(bad.empty()){
+			Dense Ap = matmul(transpose(C), C);
+			Dense AApA = matmul(matmul(A, Ap), A);
+			ld err = 0; for(std::size_t k = 0; k != AApA.a.size(); ++k){ ld e = std::fabs((ld)AApA.a[k] - (ld)A.a[k]); if(!(e <= err)) err = e; }
+			ld bound = 1e-7L * (normInf(A) * normInf(Ap) + 1) * (maxAbs(A) + 1e-300L) * (ld)(n + 1);
+			if(!(err <= bound) || !allFinite(C)) bad = " !oracle decomp-inverse-factor";
+		}
+		return "ok" + ixs(ix) + rk.str() + rest + bad;
+	}else if(cls == "eig" || cls == "eigd"){
+		symm_eigenvalue_decomposition<Mat> dec;
+		if(cls == "eigd"){ Mat g(n + 2, n + 2, 0.0); for(std::size_t i = 0; i != n + 2; ++i) g(i, i) = 1.0 + i; dec.decompose(g); }
+		dec.decompose(a); ix = 1;
+		rest = serveRequests(dec, Asym, reqs, false, 1e3, ix);
+	}else throw std::runtime_error("bad-class");
+	return "ok" + ixs(ix) + rest;
+}
+static std::string opDecomp(Args& a){
+	std::string cls = a.word(); char O = a.ch();
+	std::size_t n = a.nat(), q = a.nat();
+	Dense A(n, n, a.nums(n * n));
+	std::vector<Req> reqs(q);
+	for(std::size_t t = 0; t != q; ++t){
+		Req& r = reqs[t]; r.S = a.ch(); r.K = a.ch(); r.m = a.nat();
+		if((r.S != 'L' && r.S != 'R') || (r.K != 'v' && r.K != 'r' && r.K != 'c')) throw std::runtime_error("bad-request");
+		if(r.K == 'v'){ r.m = 1; r.B = Dense(n, 1, a.nums(n)); }
+		else r.B = r.S == 'L' ? Dense(n, r.m, a.nums(n * r.m)) : Dense(r.m, n, a.nums(n * r.m));
+	}
+	OR_DISPATCH(O, OA, return (runDecomp<OA>(cls, A, reqs)); )
 }
 
 template<class OA>
@@ -403,7 +693,7 @@ std::string runSyev(Dense const& A){
 	Dense QD = matmul(Q, D);
 	Dense Asym(n, n); for(std::size_t i = 0; i != n; ++i) for(std::size_t j = 0; j != n; ++j) Asym(i, j) = j <= i ? A(i, j) : A(j, i);
 	ld tol = 1e-9L * (ld)n * (maxAbs(A) + 1e-300L);
-	if(!(residual(QD, transpose(Q), Asym) <= tol)) out += " !oracle syev-QDQt";
+	if(!(residual(QD, transpose(Q), Asym) <= tol) || !allFinite(Q) || !allFinite(D)) out += " !oracle syev-QDQt";
 	Dense I(n, n); for(std::size_t i = 0; i != n; ++i) I(i, i) = 1;
 	if(!(residual(transpose(Q), Q, I) <= 1e-9L * n)) out += " !oracle syev-orthonormal";
 	for(std::size_t i = 0; i + 1 < n; ++i) if(!(D(i, i) >= D(i + 1, i + 1))){ out += " !oracle syev-order"; break; }
@@ -430,6 +720,8 @@ int main(){
 			else if(op == "getrf") out = opGetrf(a);
 			else if(op == "solve") out = opSolve(a);
 			else if(op == "cholup") out = opCholup(a);
+			else if(op == "cholseq") out = opCholseq(a);
+			else if(op == "decomp") out = opDecomp(a);
 			else if(op == "syev") out = opSyev(a);
 			else out = "bad-op";
 			if(out != "bad-op" && !a.done()) out = "bad-op";
